@@ -508,6 +508,41 @@ private :
     ReaderMgr*  fMgr;
 };
 
+
+//
+//  Pops the reader stack back to the reader that was current at construction
+//  if the scope is left with other readers still on top (i.e. by an exception).
+//  The DTD scanner owns the parameter entity declarations that entity readers
+//  on the stack point to; those readers must be gone before it is destroyed.
+//
+class XMLPARSER_EXPORT ReaderStackJanitor
+{
+public :
+    ReaderStackJanitor(ReaderMgr* const mgrTarget) :
+        fMgr(mgrTarget), fReaderNum(mgrTarget->getCurrentReaderNum())
+    {
+    }
+
+    ~ReaderStackJanitor()
+    {
+        try
+        {
+            if (fMgr->getCurrentReader() && fMgr->getCurrentReaderNum() != fReaderNum)
+                fMgr->cleanStackBackTo(fReaderNum);
+        }
+        catch(...)
+        {
+        }
+    }
+
+private :
+    ReaderStackJanitor(const ReaderStackJanitor&);
+    ReaderStackJanitor& operator=(const ReaderStackJanitor&);
+
+    ReaderMgr*  fMgr;
+    XMLSize_t   fReaderNum;
+};
+
 }
 
 #endif
